@@ -655,11 +655,13 @@ func (c *Client) HandleInbound(data []byte, from net.Addr) (bool, error) {
 	//  - STUN message was a request
 	//  - Non-STUN message from the STUN server
 
+	// ChannelData is tested first: its channel number (first byte 0x40-0x7F) cannot start a STUN
+	// message (first two bits 00), whereas its payload may contain the STUN magic cookie.
 	switch {
-	case stun.IsMessage(data):
-		return true, c.handleSTUNMessage(data, from)
 	case proto.IsChannelData(data):
 		return true, c.handleChannelData(data)
+	case stun.IsMessage(data):
+		return true, c.handleSTUNMessage(data, from)
 	case c.stunServerAddr != nil && from.String() == c.stunServerAddr.String():
 		// Received from STUN server but it is not a STUN message
 		return true, errNonSTUNMessage
